@@ -444,6 +444,17 @@ def f(ctx):
             ctx.ob("an exception is set only when the event carries no message", guarded_by(cfg, nid, "%s.message is not None" % ev, False) or guarded_by(cfg, nid, "%s.exception is not None" % ev, True), fi, s)
 
 
+@R.clause("C02.i", "requests queued behind an exchange complete too: the backlog invariant and 'none forgotten' of the message layer (shared with C14.a/C14.f)")
+def i_shared(ctx):
+    """A request whose CON is held back (NSTART=1) completes only if the message layer keeps the invariant
+    `backlog entry <=> active exchange` and fails the queued requests when it drops a backlog.  An independently
+    written breaking change (give-up arm of _retransmit no longer deleting the backlog entry) made the *next*
+    request to that remote end in a bare AssertionError / hang.  The obligations are those of C14.a and C14.f."""
+    from . import c14
+    c14.a(ctx)
+    c14.f(ctx)
+
+
 @R.clause("C02.h", "endpoint identity: __eq__ and __hash__ use the same projection of the socket address, keeping address and port")
 def h(ctx):
     eq = ctx.prog.func("transports.udp6.UDP6EndpointAddress.__eq__")
@@ -477,6 +488,7 @@ def h(ctx):
 
 
 F_TM = "aiocoap/tokenmanager.py"
+R.seed("C02.i", "aiocoap/messagemanager.py", "            del self._backlogs[message.remote]\n            self.token_manager.dispatch_error(", "            self.token_manager.dispatch_error(", "stale backlog entry after a timeout: the next request to that remote never completes with a library error")
 R.seed("C02.a", F_TM, "            key = (msg.token, msg.remote)\n", "            key = (msg.token, None)\n", "remote dropped on the unicast arm")
 R.seed("C02.a", F_TM, "        key = (response.token, response.remote)\n        if key not in self.outgoing_requests:", "        key = (response.token, None)\n        if key not in self.outgoing_requests:", "lookup ignores the remote")
 R.seed("C02.a", F_TM, "            # maybe it was a multicast...\n            key = (response.token, None)", "            # maybe it was a multicast...\n            key = (None, response.remote)", "fall-back ignores the token")
